@@ -768,6 +768,13 @@ type responseWriter struct {
 // WriteHeader captures the status code
 func (rw *responseWriter) WriteHeader(statusCode int) {
 	rw.statusCode = statusCode
+	if statusCode >= http.StatusOK {
+		// A proxy must not invent a Content-Type the backend did not send:
+		// a nil entry keeps net/http from sniffing one from the body.
+		if _, ok := rw.Header()["Content-Type"]; !ok {
+			rw.Header()["Content-Type"] = nil
+		}
+	}
 	rw.ResponseWriter.WriteHeader(statusCode)
 }
 
